@@ -195,6 +195,8 @@ pub struct Sim {
     /// crash injection: unwind at this write boundary (1-based), see crash.rs
     pub writes_seen: u64,
     pub last_event_kind: String,
+    /// a root-cause violation was found: its consequences are not reported again
+    pub taint: Option<String>,
 }
 
 pub fn abs_now(now: u64) -> u64 {
@@ -255,6 +257,7 @@ impl Sim {
             stop: false,
             writes_seen: 0,
             last_event_kind: String::new(),
+            taint: None,
         };
         for i in 0..sim.peers.len() {
             sim.refresh_view(i, false);
@@ -305,6 +308,13 @@ impl Sim {
             at_event: self.events,
             at_time: self.now,
         };
+        if let Some(t) = self.taint.as_ref() {
+            let derived = matches!(property, "C03" | "C04" | "C05" | "C06" | "C09" | "C12" | "C16");
+            if derived && *t != v.key() {
+                self.stat(&format!("suppressed_consequence.{}", property));
+                return;
+            }
+        }
         self.log(format!("VIOLATION {} {}", v.key(), v.detail));
         if !self.violations.iter().any(|x| x.key() == v.key()) {
             self.violations.push(v);
@@ -882,6 +892,12 @@ impl Sim {
                 let nb = self.world.fork(src, at, tag);
                 for _ in 0..n {
                     self.world.mine(nb, abs_now(self.now));
+                }
+                // honest nodes only switch to a heavier chain
+                let mut extra = 0;
+                while self.world.td(nb, self.world.tip_number(nb)) <= self.world.td(src, tip) && extra < 500 {
+                    self.world.mine(nb, abs_now(self.now));
+                    extra += 1;
                 }
                 self.stat("world.fork");
             }
